@@ -26,6 +26,7 @@
 // The *_batch harnesses enumerate e x b x s x o x script arguments inside one body (one canonical schedule covers
 // the whole slice; run them with --bound 0 opt.free_switch_cost=1); part/parts slice the enumeration.
 #include "mc_harness.h"
+#include <algorithm>
 #include <dispenso/graph.h>
 #include <dispenso/graph_executor.h>
 #include <dispenso/platform.h>
@@ -42,13 +43,28 @@ inline int pair_idx(int n, int i, int j) { // i<j
   return idx + (j - i - 1);
 }
 inline int popcount(unsigned x) { return __builtin_popcount(x); }
+struct SetStr { // "{0,2}" for mask 5
+  char b[32];
+  explicit SetStr(unsigned m) {
+    int k = 0;
+    b[k++] = '{';
+    for (int i = 0; i < 8; i++)
+      if ((m >> i) & 1) {
+        if (k > 1) b[k++] = ',';
+        b[k++] = (char)('0' + i);
+      }
+    b[k++] = '}';
+    b[k] = 0;
+  }
+  const char* c() const { return b; }
+};
 
 struct Cfg {
   int n = 3, gt = 0, ex = 0, N = 0;
   unsigned e = 0, b = 0, s = 0;
   int o = 0, script = 0, init = 0, k = 0, pre = 0, re = 0, mv = 0;
   unsigned late = 0;
-  int mark = -1, fin = 1;
+  int mark = -1, fin = 1, sameset = 1;
   bool edge(int i, int j) const { return (e >> pair_idx(n, i, j)) & 1; }
   bool biprop(int i, int j) const { return (b >> pair_idx(n, i, j)) & 1; }
   std::string str() const {
@@ -191,11 +207,29 @@ unsigned ref_closure(const Cfg& c, unsigned live, unsigned roots) {
 // ---------------------------------------------------------------------------------------------- one case
 struct Failures {
   bool immediate = false;
-  int count = 0;
-  std::string first;
-  void add(const std::string& m) {
+  int count = 0, cases = 0;
+  long serial = 0, last_serial = -1; // the batch driver numbers the configurations
+  std::vector<std::pair<std::string, std::pair<int, std::string>>> kinds; // format string -> (count, first message)
+  void add(const char* kind, const Cfg* cfg, const std::string& m) {
     if (immediate) mc::fail("%s", m.c_str());
-    if (count++ == 0) first = m;
+    count++;
+    (void)cfg;
+    if (serial != last_serial) cases++, last_serial = serial;
+    for (auto& k : kinds)
+      if (k.first == kind) {
+        k.second.first++;
+        return;
+      }
+    kinds.push_back({kind, {1, m}});
+  }
+  std::string summary() const {
+    std::string out;
+    for (auto& k : kinds) {
+      char b[40];
+      snprintf(b, sizeof b, " {%dx} ", k.second.first);
+      out += b + k.second.second.substr(0, 330);
+    }
+    return out.substr(0, 800);
   }
 };
 
@@ -243,7 +277,7 @@ struct World {
     vsnprintf(buf, sizeof buf, fmt, ap);
     va_end(ap);
     ok = false;
-    F.add("[" + c.str() + "] " + L.phase + ": " + buf);
+    F.add(fmt, &c, "[" + c.str() + "] " + L.phase + ": " + buf);
   }
   int sub_of(int i) const { return (int)((c.s >> i) & 1); }
 
@@ -309,7 +343,7 @@ struct World {
     }
     unsigned inc = incomplete_now();
     if (inc != R) {
-      failf("before the executor ran, the incomplete nodes are %#x, expected %#x", inc, R);
+      failf("before the executor ran, the incomplete nodes are %s, expected %s", SetStr(inc).c(), SetStr(R).c());
       return false;
     }
     L.reset();
@@ -323,10 +357,10 @@ struct World {
       }
       int r = L.runs[i].get();
       if ((R >> i) & 1) {
-        if (r != 1) failf("incomplete node %d ran %d times in one evaluation (incomplete set %#x)", i, r, R);
+        if (r != 1) failf("incomplete node %d ran %d times in one evaluation (incomplete set %s)", i, r, SetStr(R).c());
       } else if (r != 0)
-        failf("node %d was complete and ran %d time(s) (incomplete set %#x)", i, r, R);
-      if (!node[i]->isCompleted()) failf("node %d is not complete after the executor returned (ran %d times, incomplete set was %#x)", i, r, R);
+        failf("node %d was complete and ran %d time(s) (incomplete set %s)", i, r, SetStr(R).c());
+      if (!node[i]->isCompleted()) failf("node %d is not complete after the executor returned (ran %d times, incomplete set was %s)", i, r, SetStr(R).c());
     }
     if (!ok) return false;
     for (int j = 0; j < c.n; j++)
@@ -454,11 +488,11 @@ struct World {
   bool same_set_check() { return true; }
   bool partial_round(unsigned M, const char* hist) {
     char ph[120];
-    snprintf(ph, sizeof ph, "mark=%#x%s", M, hist);
+    snprintf(ph, sizeof ph, "mark=%s%s", SetStr(M).c(), hist);
     L.phase = ph;
     unsigned before = incomplete_now();
     if (before != 0) {
-      failf("nodes %#x are incomplete before marking", before);
+      failf("nodes %s are incomplete before marking", SetStr(before).c());
       return false;
     }
     for (int i = 0; i < c.n; i++)
@@ -472,7 +506,7 @@ struct World {
     unsigned R = ref_closure(c, live, M);
     unsigned inc = incomplete_now();
     if (inc != R) {
-      failf("ForwardPropagator left nodes %#x incomplete; the forward closure of %#x plus the bidirectional sets it touches is %#x", inc, M, R);
+      failf("ForwardPropagator left nodes %s incomplete; the forward closure of %s plus the bidirectional sets it touches is %s", SetStr(inc).c(), SetStr(M).c(), SetStr(R).c());
       return false;
     }
     if (R != ref_closure(Cfg_no_biprop(), live, M)) mc::cover("biprop_set_pulled_in");
@@ -511,7 +545,8 @@ bool run_case(const Cfg& c, Exec& x, Log& L, Failures& F, bool c31) {
   if (!c31) return true;
   unsigned all = (1u << c.n) - 1;
   if (w.live != all) return true;
-  if (!w.same_set_check()) return false;
+  if (c.sameset) w.same_set_check(); // a mismatch is recorded; the propagation rounds below show what it means for re-evaluation
+  w.ok = true;
   if (c.mark >= 0) {
     if (!w.partial_round((unsigned)c.mark, "")) return false;
   } else {
@@ -558,6 +593,7 @@ Cfg cfg_from(const mc::Params& P) {
   c.mv = (int)P("mv", 0);
   c.mark = (int)P("mark", -1);
   c.fin = (int)P("fin", 1);
+  c.sameset = (int)P("sameset", 1);
   return c;
 }
 
@@ -658,10 +694,15 @@ void batch(const mc::Params& P, bool c31) {
   {
     Exec x(base.N);
     if (P("park", 1)) x.wait_parked(base.N);
-    cases = enumerate(P, c31, [&](const Cfg& c) { dispatch(c, x, L, F, c31); });
+    bool park = P("park", 1) != 0;
+    cases = enumerate(P, c31, [&](const Cfg& c) {
+      if (park) x.wait_parked(base.N); // workers idle while the next graph is built: no choice points there
+      F.serial++;
+      dispatch(c, x, L, F, c31);
+    });
   }
   if (P("count", 0)) mc_log("cases=%ld", cases);
-  MC_CHECK(F.count == 0, "%d of %ld configurations failed; first: %s", F.count, cases, F.first.c_str());
+  MC_CHECK(F.count == 0, "%d of %ld configurations failed:%s", F.cases, cases, F.summary().c_str());
   MC_CHECK(cases > 0, "harness: empty slice");
   mc::observe("cases", cases);
   mc::observe("evaluations", L.epoch);
@@ -672,10 +713,17 @@ void batch(const mc::Params& P, bool c31) {
 // neither grows the heap (the ASan leg compares allocated bytes before/after) nor takes the "cache empty" path.
 template <class G>
 void fill_one() {
-  G g;
-  for (int i = 0; i < 9; i++) g.addSubgraph();
-  // one allocation each, so that every cached allocator already owns its first chunk
-  g.forEachSubgraph([](typename G::SubgraphType& sg) { (void)sg.allocator_->alloc(); });
+  G g; // subgraph 0 + 7 more = kMaxCache allocators: takes whatever the cache holds and creates the rest
+  for (int i = 0; i < 7; i++) g.addSubgraph();
+  std::vector<typename G::SubgraphType*> sgs;
+  g.forEachSubgraph([&](typename G::SubgraphType& sg) {
+    (void)sg.allocator_->alloc(); // every cached allocator owns its first chunk already
+    sgs.push_back(&sg);
+  });
+  // hand them back in one fixed order, so that subgraph k of every execution gets the same allocator (node
+  // addresses decide the order inside a bidirectional-propagation set, hence the order of atomic operations)
+  std::sort(sgs.begin(), sgs.end(), [](typename G::SubgraphType* a, typename G::SubgraphType* b) { return a->allocator_.get() < b->allocator_.get(); });
+  for (auto* sg : sgs) sg->allocator_.reset();
 }
 void fill_subgraph_cache() {
   fill_one<dispenso::Graph>();
